@@ -20,6 +20,7 @@ Record pthread := {
   pt_hdr : string;
   pt_body : list member;
   pt_obj : option nat;                      (* the object it works on *)
+  pt_fails : bool;                          (* the operation of this request panics (after the executor was handed the object) *)
   pt_ok : bool;                             (* the decoder reported no error *)
   pt_seen : option (params * bool) }.       (* what its executor was handed *)
 
@@ -27,16 +28,24 @@ Record pstate := {
   ps_thr : list pthread;
   ps_heap : list (params * owner) }.
 
-Definition pstart (r : string * list member) : pthread :=
-  {| pt_pc := PStart; pt_hdr := fst r; pt_body := snd r; pt_obj := None; pt_ok := true; pt_seen := None |}.
-Definition pinit (reqs : list (string * list member)) : pstate := {| ps_thr := map pstart reqs; ps_heap := [] |}.
+Definition pstart_f (r : (string * list member) * bool) : pthread :=
+  {| pt_pc := PStart; pt_hdr := fst (fst r); pt_body := snd (fst r); pt_obj := None; pt_fails := snd r; pt_ok := true; pt_seen := None |}.
+(** requests, each with "its operation panics" *)
+Definition pinit_f (reqs : list ((string * list member) * bool)) : pstate := {| ps_thr := map pstart_f reqs; ps_heap := [] |}.
+Definition pinit (reqs : list (string * list member)) : pstate := pinit_f (map (fun r => (r, false)) reqs).
+
+(** the variants: [v_early_put] returns the object to the pool before its last use; with [v_clean_on_panic = false]
+    the clean-up is no deferred call and is skipped when the operation panics; with [v_clean_on_decode_error = false]
+    it is skipped on the early return taken when the body does not decode *)
+Record pvariant := { v_early_put : bool; v_clean_on_panic : bool; v_clean_on_decode_error : bool }.
+Definition as_written_pool : pvariant := {| v_early_put := false; v_clean_on_panic := true; v_clean_on_decode_error := true |}.
 
 Definition pt_with (t : pthread) (pc : ppc) (obj : option nat) (ok : bool) (seen : option (params * bool)) : pthread :=
-  {| pt_pc := pc; pt_hdr := pt_hdr t; pt_body := pt_body t; pt_obj := obj; pt_ok := ok; pt_seen := seen |}.
+  {| pt_pc := pc; pt_hdr := pt_hdr t; pt_body := pt_body t; pt_obj := obj; pt_fails := pt_fails t; pt_ok := ok; pt_seen := seen |}.
 
 (** a step of request [i]; [choice] matters for Get only: [Some id] takes that object out of the pool, [None] is
     sync.Pool's New *)
-Definition pstep (early_put : bool) (s : pstate) (i : nat) (choice : option nat) : option pstate :=
+Definition pstep (v : pvariant) (s : pstate) (i : nat) (choice : option nat) : option pstate :=
   match nth_error (ps_thr s) i with
   | None => None
   | Some t =>
@@ -48,8 +57,8 @@ Definition pstep (early_put : bool) (s : pstate) (i : nat) (choice : option nat)
                             ps_heap := ps_heap s ++ [(pzero, Held i)] |}
           | Some id =>
               match nth_error (ps_heap s) id with
-              | Some (v, InPool) => Some {| ps_thr := thr (pt_with t PGot (Some id) true None);
-                                            ps_heap := upd id (v, Held i) (ps_heap s) |}
+              | Some (x, InPool) => Some {| ps_thr := thr (pt_with t PGot (Some id) true None);
+                                            ps_heap := upd id (x, Held i) (ps_heap s) |}
               | _ => None
               end
           end
@@ -57,10 +66,10 @@ Definition pstep (early_put : bool) (s : pstate) (i : nat) (choice : option nat)
           match pt_obj t with
           | Some id =>
               match nth_error (ps_heap s) id with
-              | Some (v, o) =>
-                  let '(v', ok) := fill v (pt_hdr t) (pt_body t) in
+              | Some (x, o) =>
+                  let '(v', ok) := fill x (pt_hdr t) (pt_body t) in
                   Some {| ps_thr := thr (pt_with t PFilled (Some id) ok None);
-                          ps_heap := upd id (v', if early_put then InPool else o) (ps_heap s) |}
+                          ps_heap := upd id (v', if v_early_put v then InPool else o) (ps_heap s) |}
               | None => None
               end
           | None => None
@@ -69,7 +78,7 @@ Definition pstep (early_put : bool) (s : pstate) (i : nat) (choice : option nat)
           match pt_obj t with
           | Some id =>
               match nth_error (ps_heap s) id with
-              | Some (v, _) => Some {| ps_thr := thr (pt_with t PSeen (Some id) (pt_ok t) (Some (v, pt_ok t))); ps_heap := ps_heap s |}
+              | Some (x, _) => Some {| ps_thr := thr (pt_with t PSeen (Some id) (pt_ok t) (Some (x, pt_ok t))); ps_heap := ps_heap s |}
               | None => None
               end
           | None => None
@@ -78,8 +87,11 @@ Definition pstep (early_put : bool) (s : pstate) (i : nat) (choice : option nat)
           match pt_obj t with
           | Some id =>
               match nth_error (ps_heap s) id with
-              | Some (v, o) => Some {| ps_thr := thr (pt_with t PCleaned (Some id) (pt_ok t) (pt_seen t));
-                                       ps_heap := upd id (cleanup [] v, o) (ps_heap s) |}
+              | Some (x, o) =>
+                  (* the deferred clean-up: skipped by the variants on the panic path / the decode-error return *)
+                  let skip := (pt_fails t && negb (v_clean_on_panic v)) || (negb (pt_ok t) && negb (v_clean_on_decode_error v)) in
+                  Some {| ps_thr := thr (pt_with t PCleaned (Some id) (pt_ok t) (pt_seen t));
+                          ps_heap := upd id (if skip then x else cleanup [] x, o) (ps_heap s) |}
               | None => None
               end
           | None => None
@@ -88,8 +100,8 @@ Definition pstep (early_put : bool) (s : pstate) (i : nat) (choice : option nat)
           match pt_obj t with
           | Some id =>
               match nth_error (ps_heap s) id with
-              | Some (v, _) => Some {| ps_thr := thr (pt_with t PDone None (pt_ok t) (pt_seen t));
-                                       ps_heap := upd id (v, InPool) (ps_heap s) |}
+              | Some (x, _) => Some {| ps_thr := thr (pt_with t PDone None (pt_ok t) (pt_seen t));
+                                       ps_heap := upd id (x, InPool) (ps_heap s) |}
               | None => None
               end
           | None => None
@@ -98,10 +110,10 @@ Definition pstep (early_put : bool) (s : pstate) (i : nat) (choice : option nat)
       end
   end.
 
-Fixpoint prun_pool (early_put : bool) (s : pstate) (tr : list (nat * option nat)) {struct tr} : option pstate :=
+Fixpoint prun_pool (v : pvariant) (s : pstate) (tr : list (nat * option nat)) {struct tr} : option pstate :=
   match tr with
   | [] => Some s
-  | (i, c) :: r => match pstep early_put s i c with Some s' => prun_pool early_put s' r | None => None end
+  | (i, c) :: r => match pstep v s i c with Some s' => prun_pool v s' r | None => None end
   end.
 
 (** what a request's executor is handed when the request runs alone on a fresh object *)
